@@ -136,6 +136,7 @@ type openRequest struct {
 	// per chosen validator: block offset at which it will report (-1 never)
 	Plan map[string]int
 	Done map[string]bool
+	longDrawn, long, longUsed bool
 }
 
 type OracleActor struct {
@@ -234,6 +235,17 @@ func (a *OracleActor) honestRaw(e *Env, r *openRequest, val string) []oracletype
 		data := []byte(fmt.Sprintf("d%dv%s", eid, val[len(val)-3:]))
 		if e.Ch.Bool("oracle.report.empty", 100) {
 			data = nil
+		}
+		// one report of a request may be longer than the calldata limit (256) yet within the report limit (512); the request is
+		// small enough for the concatenated script output to stay below 512
+		if !r.longDrawn {
+			r.longDrawn = true
+			r.long = len(r.Chosen)*len(r.RawEIDs) <= 30 && e.Ch.Bool("oracle.report.long", 100)
+		}
+		if r.long && !r.longUsed && exit == 0 {
+			r.longUsed = true
+			data = bytes.Repeat([]byte("L"), 257+e.Ch.Intn("oracle.report.longn", 4))
+			e.St.Probe("report_longer_than_calldata_limit")
 		}
 		out = append(out, oracletypes.NewRawReport(eid, exit, data))
 	}
